@@ -68,8 +68,13 @@ func mutateTokens(r *rng.R, toks []sg.Token) string {
 			if i+1 < len(t) {
 				t[i], t[i+1] = t[i+1], t[i]
 			}
-		case 3: // replace by another token of the text
-			t[i] = t[r.Intn(len(t))]
+		case 3: // replace by another token of the text, or by a private-use character (no token of the grammar;
+			// the generated parser numbers its own tokens from U+E002 on)
+			if r.Intn(3) == 0 {
+				t[i] = sg.Token{Kind: 'p', Text: string(rune(0xE000 + r.Intn(0x20)))}
+			} else {
+				t[i] = t[r.Intn(len(t))]
+			}
 		case 4, 5: // inject a scanner-hostile lexeme
 			h := sg.Token{Kind: 'p', Text: hostile[r.Intn(len(hostile))]}
 			t = append(t[:i], append([]sg.Token{h}, t[i:]...)...)
@@ -93,7 +98,7 @@ func mutateTokens(r *rng.R, toks []sg.Token) string {
 // C15: the schema parser records exactly what the source says, or errors.
 func C15(c *runner.Cfg) *report.Result {
 	res := report.New("C15", "")
-	res.Rule = "(1) syntax trees from a grammar-directed generator (imports with aliases, options, enums, messages, structs, services and subservices with every method form, contextual keywords as names, tags up to 65535) are rendered with randomized whitespace, comments and optional separators; the canonical dump of the parser's tree (verifhook/vlang.ParseDump) must equal the canonical dump of the generated tree; (2) token-level mutants of those renderings (delete/duplicate/swap/replace/truncate, scanner-hostile lexemes: NUL, char/float/raw-string literals, non-decimal and out-of-range integers, unterminated strings and comments): no panic; texts the harness's own tokenizer classifies as lexically invalid must be rejected; accepted texts must record as many definitions as the token stream delimits and must re-print to a fixed point (parse -> dump -> rebuild -> print -> parse -> same dump); non-trivial = text with at least one definition; distinct = distinct texts"
+	res.Rule = "(1) syntax trees from a grammar-directed generator (imports with aliases, options, enums, messages, structs, services and subservices with every method form, contextual keywords as names, tags up to 65535) are rendered with randomized whitespace, comments and optional separators; the canonical dump of the parser's tree (verifhook/vlang.ParseDump) must equal the canonical dump of the generated tree; (2) token-level mutants of those renderings (delete/duplicate/swap/replace/truncate, scanner-hostile lexemes: NUL, char/float/raw-string literals, non-decimal and out-of-range integers, unterminated strings and comments, private-use characters in place of a token): no panic; texts the harness's own tokenizer classifies as lexically invalid must be rejected; accepted texts must record as many definitions as the token stream delimits and must re-print to a fixed point (parse -> dump -> rebuild -> print -> parse -> same dump); non-trivial = text with at least one definition; distinct = distinct texts"
 	n := c.N(1200, 120000)
 	c.Cases("C15/gen", n, func(idx int, _ *journal.Slot) {
 		r := rng.New(c.Seed, "c15/gen", uint64(idx))
